@@ -923,6 +923,67 @@ fn swap_history() -> Option<String> {
     if HITS.load(Ordering::SeqCst) != 1 {
         return Some("after such a reconfiguration a record was not delivered once by the newest configuration".to_string());
     }
+    // A flush pass during which an appender's own flush() installs a SMALLER configuration (3 appenders -> 1): the
+    // pass works on the one configuration it loaded - every appender of it is flushed once, nothing panics - and
+    // records logged afterwards follow the new configuration.
+    static FLUSHED: AtomicUsize = AtomicUsize::new(0);
+    type Slot = Arc<Mutex<Option<(log4rs::Handle, Config)>>>;
+    #[derive(Debug)]
+    struct Flusher(Slot);
+    impl Append for Flusher {
+        fn append(&self, _r: &log::Record) -> anyhow::Result<()> {
+            Ok(())
+        }
+        fn flush(&self) {
+            FLUSHED.fetch_add(1, Ordering::SeqCst);
+            let armed = self.0.lock().unwrap().take();
+            if let Some((h, cfg)) = armed {
+                h.set_config(cfg);
+            }
+        }
+    }
+    #[derive(Debug)]
+    struct Plain;
+    impl Append for Plain {
+        fn append(&self, _r: &log::Record) -> anyhow::Result<()> {
+            Ok(())
+        }
+        fn flush(&self) {
+            FLUSHED.fetch_add(16, Ordering::SeqCst);
+        }
+    }
+    for position in 0..3 {
+        FLUSHED.store(0, Ordering::SeqCst);
+        HITS.store(0, Ordering::SeqCst);
+        let slot: Slot = Arc::new(Mutex::new(None));
+        let mut b = Config::builder();
+        let mut root = Root::builder();
+        for i in 0..3 {
+            let a: Box<dyn Append> = if i == position { Box::new(Flusher(slot.clone())) } else { Box::new(Plain) };
+            b = b.appender(Appender::builder().build(format!("w{}", i), a));
+            root = root.appender(format!("w{}", i));
+        }
+        let lg = log4rs::Logger::new(b.build(root.build(log::LevelFilter::Trace)).expect("config"));
+        *slot.lock().unwrap() = Some((lg.verif_handle(), mk(Box::new(Count))));
+        let pass = std::panic::catch_unwind(std::panic::AssertUnwindSafe(|| if position == 1 { Append::flush(&lg) } else { Log::flush(&lg) }));
+        if pass.is_err() {
+            return Some(format!(
+                "Logger::flush panicked: appender {} of 3 installs a configuration with one appender from inside its flush()",
+                position
+            ));
+        }
+        if FLUSHED.load(Ordering::SeqCst) != 33 {
+            return Some(format!(
+                "a flush pass during which appender {} of 3 installs a smaller configuration did not flush each appender of the configuration it started with once (flusher x1 + plain x16 = {}, expected 33)",
+                position,
+                FLUSHED.load(Ordering::SeqCst)
+            ));
+        }
+        log_to(&lg, "probe", 1, format_args!("b"));
+        if HITS.load(Ordering::SeqCst) != 1 {
+            return Some("after a configuration installed from inside flush() a record was not delivered once by it".to_string());
+        }
+    }
     None
 }
 
